@@ -52,7 +52,8 @@ def _validate(ck, sw, name, beh, label):
     for sid, i, key in bads:
         if "/harness/" in key:
             # the driver issued something the monitor cannot interpret: tool trouble, never a verdict
-            ck.inconclusive.append("%s at step %d of scenario %d (%s)" % (key, i, sid, label))
+            if len(ck.inconclusive) < 5:
+                ck.inconclusive.append("%s at step %d of scenario %d (%s)" % (key, i, sid, label))
             continue
         ck.report_bad(key, "ByteBuffer trace rejected at step %d of scenario %d (%s)" % (i, sid, label),
                       lambda sid=sid, i=i, key=key: {
